@@ -201,4 +201,16 @@ Proof.
   - intros c Hc. unfold canon_set. rewrite mem_app, mem_rev, (T_ks_hard sp' c Hc). reflexivity.
   - exists p. split; [reflexivity|]. split; assumption.
 Qed.
+
+Theorem reported_path_loop d l n f :
+  lookup d l = Some n -> pb_safe Dot d l = true ->
+  match pb_coords d l n with RCoords _ _ _ path _ => path | _ => "" end = build_orig l
+  /\ exists p, prepare (Datatypes.S f) (build_orig l) = Ok p /\ GR p d = gone (pb_coords d l n).
+Proof. intros Hl Hs. split; [apply pb_coords_path; exact Hl | apply resolve_query_orig; assumption]. Qed.
+
+Theorem any_result_resolves d l n f (x : rval) par rf path anc :
+  x = RCoords (RNode n) par rf path anc -> path = build_orig l ->
+  lookup d l = Some n -> pb_safe Dot d l = true ->
+  exists p, prepare (Datatypes.S f) path = Ok p /\ GR p d = gone (pb_coords d l n).
+Proof. intros _ -> Hl Hs. apply resolve_query_orig; assumption. Qed.
 End Query.
